@@ -60,8 +60,29 @@ class Snapshot(object):
         return False
 
 
+def _untraced_fold_class():
+    """FoldConstants with CrossHair's tracer switched off for the duration of the stage.  Folding only looks at literal
+    operands (concrete in every skeleton); traced, its print / eval / parse round trip makes CrossHair invent symbolic
+    return values and the obligation never finishes."""
+    real_fold = python_minifier.FoldConstants
+
+    class UntracedFold(object):
+        def __call__(self, module):
+            try:
+                from crosshair.tracers import NoTracing, is_tracing
+            except ImportError:
+                return real_fold()(module)
+            if not is_tracing():
+                return real_fold()(module)
+            with NoTracing():
+                return real_fold()(module)
+
+    return UntracedFold
+
+
 def run_pipeline(tree, rename_locals=True, rename_globals=False, hoist_literals=True, preserve_locals=None,
                  preserve_globals=None, extra=None, stub_builtins=True):
+    import contextlib
     cap = Capture()
     opts = dict(ALL_OFF)
     opts.update(rename_locals=rename_locals, rename_globals=rename_globals, hoist_literals=hoist_literals)
@@ -71,15 +92,18 @@ def run_pipeline(tree, rename_locals=True, rename_globals=False, hoist_literals=
         opts['preserve_globals'] = preserve_globals
     if extra:
         opts.update(extra)
-    if stub_builtins:
-        # hash() in rename_literals: a constant is a valid hash for any __eq__; the real one makes CrossHair hand a
-        # symbolic int to HoistedValue.__hash__ ("proxy intolerance")
-        rl_mod = mod('python_minifier.rename.rename_literals')
-        with builtins_stubbed(), pipeline(tree, capture=cap, placeholder_only=True), patched(rl_mod, 'hash', _const_hash), patched(rl_mod, 'repr', _len_repr):
-            python_minifier.minify('', **opts)
-    else:
-        with pipeline(tree, capture=cap, placeholder_only=True):
-            python_minifier.minify('', **opts)
+    with contextlib.ExitStack() as st:
+        if stub_builtins:
+            # hash() in rename_literals: a constant is a valid hash for any __eq__; the real one makes CrossHair hand a
+            # symbolic int to HoistedValue.__hash__ ("proxy intolerance"); repr(): length model for the cost function
+            rl_mod = mod('python_minifier.rename.rename_literals')
+            st.enter_context(builtins_stubbed())
+            st.enter_context(patched(rl_mod, 'hash', _const_hash))
+            st.enter_context(patched(rl_mod, 'repr', _len_repr))
+            if opts.get('constant_folding'):
+                st.enter_context(patched(python_minifier, 'FoldConstants', _untraced_fold_class()))
+        st.enter_context(pipeline(tree, capture=cap, placeholder_only=True))
+        python_minifier.minify('', **opts)
     return cap.tree
 
 
